@@ -34,13 +34,12 @@ var pureFuncs = map[string]bool{
 	"github.com/ChainSafe/gossamer/lib/common.Twox128Hash": true, "github.com/ChainSafe/gossamer/lib/common.Twox64": true,
 	"github.com/ChainSafe/gossamer/lib/common.Sha256": true, "github.com/ChainSafe/gossamer/lib/common.MustBlake2b8": true,
 	"(github.com/ChainSafe/gossamer/dot/types.Extrinsic).Hash": true,
-	"bytes.Compare": true, "bytes.Join": true, "bytes.Contains": true, "bytes.Index": true, "bytes.IndexByte": true,
+	"bytes.Join": true, "bytes.Contains": true, "bytes.Index": true, "bytes.IndexByte": true,
 	"strings.HasPrefix": true, "strings.HasSuffix": true, "strings.Contains": true, "strings.TrimPrefix": true,
 	"encoding/hex.EncodeToString": true, "(*math/big.Int).Cmp": true, "(*math/big.Int).Sign": true,
 	"(*math/big.Int).Bytes": true, "(*math/big.Int).Uint64": true, "(*math/big.Int).IsUint64": true, "(*math/big.Int).Int64": true,
 	"(*math/big.Int).String": true, "(*math/big.Int).BitLen": true, "math/big.NewInt": true,
-	"time.Now": true, "(time.Time).Before": true, "(time.Time).After": true, "(time.Time).Equal": true, "(time.Time).Sub": true,
-	"(time.Time).Unix": true, "(time.Time).UnixNano": true, "time.Since": true, "(time.Time).Add": true,
+	"time.Now": true, "(time.Time).Sub": true, "time.Since": true, "(time.Time).Add": true,
 }
 
 // pureIfaceMethods: interface methods assumed to only read their arguments (database getters)
@@ -125,6 +124,41 @@ func DefaultModels() map[string]Model {
 		pre := Value{T: s.T, L: []*Term{sp.base, sp.off, pp.ln, pp.ln}}
 		r := And(BVCmp("bvule", pp.ln, sp.ln), x.bytesEqual(st, pre, p))
 		return retOne(st, boolV(x.define(st, "hasprefix", r)))
+	}
+	// bytes.Compare: an uninterpreted three-way comparison of the two byte sequences (array, offset, length);
+	// specifications name the same function as bytesCompare(a, b). Assumed: it is a function of the contents.
+	m["bytes.Compare"] = func(x *Exec, fr *Frame, st *State, args []Value, pos token.Pos) []Outcome {
+		return retOne(st, scalar(tInt, x.define(st, "bytescmp", x.bytesCmpTerm(st, args[0], args[1]))))
+	}
+	// ---- time.Time: an instant is an uninterpreted signed 64-bit nanosecond count determined by the value's
+	// wall and ext words (the location does not take part in comparisons); Before/After/Equal/Compare order
+	// instants, UnixNano is the instant, Unix the instant divided by 10^9 (assumed abstraction of package time)
+	timeInstant := func(x *Exec, v Value) *Term {
+		if len(v.L) < 2 {
+			unsup("time.Time value with %d leaves", len(v.L))
+		}
+		x.c.declFun("time.instant", []Sort{v.L[0].S, v.L[1].S}, SBV(64))
+		x.c.note("assumed: time.Time values are ordered by an uninterpreted instant (nanoseconds) of their wall/ext words; Unix() is instant/10^9")
+		return Apply("time.instant", SBV(64), v.L[0], v.L[1])
+	}
+	m["(time.Time).Before"] = func(x *Exec, fr *Frame, st *State, args []Value, pos token.Pos) []Outcome {
+		return retOne(st, boolV(BVCmp("bvslt", timeInstant(x, args[0]), timeInstant(x, args[1]))))
+	}
+	m["(time.Time).After"] = func(x *Exec, fr *Frame, st *State, args []Value, pos token.Pos) []Outcome {
+		return retOne(st, boolV(BVCmp("bvsgt", timeInstant(x, args[0]), timeInstant(x, args[1]))))
+	}
+	m["(time.Time).Equal"] = func(x *Exec, fr *Frame, st *State, args []Value, pos token.Pos) []Outcome {
+		return retOne(st, boolV(Eq(timeInstant(x, args[0]), timeInstant(x, args[1]))))
+	}
+	m["(time.Time).Compare"] = func(x *Exec, fr *Frame, st *State, args []Value, pos token.Pos) []Outcome {
+		a, b := timeInstant(x, args[0]), timeInstant(x, args[1])
+		return retOne(st, scalar(tInt, Ite(BVCmp("bvslt", a, b), BVLit64(-1, 64), Ite(Eq(a, b), BVLit64(0, 64), BVLit64(1, 64)))))
+	}
+	m["(time.Time).UnixNano"] = func(x *Exec, fr *Frame, st *State, args []Value, pos token.Pos) []Outcome {
+		return retOne(st, scalar(types.Typ[types.Int64], timeInstant(x, args[0])))
+	}
+	m["(time.Time).Unix"] = func(x *Exec, fr *Frame, st *State, args []Value, pos token.Pos) []Outcome {
+		return retOne(st, scalar(types.Typ[types.Int64], x.define(st, "unix", BVBin("bvsdiv", timeInstant(x, args[0]), BVLit64(1000000000, 64)))))
 	}
 	// ---- lib/runtime.Memory (Wasm linear memory), assumed interface contract with ghost state:
 	// size in bytes (at most 4 GiB, only grows), contents as 64-bit words addressed by byte offset
@@ -688,6 +722,26 @@ func (x *Exec) bytesEqual(st *State, a, b Value) *Term {
 	return r
 }
 
+// bytesCmpTerm: bytes.Compare as an uninterpreted function of the two sequences. Arguments are slices or
+// (in specifications) array values.
+func (x *Exec) bytesCmpTerm(st *State, a, b Value) *Term {
+	seq := func(v Value) (arr, off, ln *Term) {
+		if at, ok := v.T.Underlying().(*types.Array); ok && len(v.L) == 1 {
+			return v.L[0], BVLit64(0, 64), BVLit64(at.Len(), 64)
+		}
+		if !isSliceT(v.T) {
+			unsup("bytes.Compare of %s", v.T)
+		}
+		p := sl(v)
+		return Select(x.comp(st, "arr:uint8", types.Typ[types.Uint8], 0), p.base), p.off, p.ln
+	}
+	aa, ao, al := seq(a)
+	ba, bo, bl := seq(b)
+	x.c.declFun("bytes.compare", []Sort{aa.S, idxSort, idxSort, ba.S, idxSort, idxSort}, idxSort)
+	x.c.note("assumed: bytes.Compare is an uninterpreted function of the two byte sequences")
+	return Apply("bytes.compare", idxSort, aa, ao, al, ba, bo, bl)
+}
+
 func itoa(i int) string {
 	if i == 0 {
 		return "0"
@@ -956,6 +1010,21 @@ func registerSpecBuiltins(x *Exec) {
 			return scalar(tInt, t)
 		}
 		return scalar(tInt, BVLit64(0, 64))
+	}
+	// bytesCompare(a, b): the value bytes.Compare(a, b) returns (a, b: byte slices or byte arrays)
+	x.specBuiltins["bytesCompare"] = func(sc *specScope, n *ECall) Value {
+		a := x.evalSpec0(sc, n.Args[0], nil)
+		b := x.evalSpec0(sc, n.Args[1], nil)
+		return scalar(tInt, x.bytesCmpTerm(sc.st, a, b))
+	}
+	// instant(t): the instant (uninterpreted nanosecond count) of a time.Time value
+	x.specBuiltins["instant"] = func(sc *specScope, n *ECall) Value {
+		v := x.evalSpec0(sc, n.Args[0], nil)
+		if len(v.L) < 2 {
+			unsup("spec: instant of %s", v.T)
+		}
+		x.c.declFun("time.instant", []Sort{v.L[0].S, v.L[1].S}, SBV(64))
+		return scalar(types.Typ[types.Int64], Apply("time.instant", SBV(64), v.L[0], v.L[1]))
 	}
 	// nok("(pkg.Iface).Method"): number of calls so far that succeeded (nil error / true; (true, nil) for a
 	// (bool, error) result) -- maintained for interface methods with an assumed contract and for callees
